@@ -162,6 +162,36 @@ def run(ctx):
                    where=f.loc())
     ctx.floor("R5", n5, 4, "functions writing two or more cells of a paired group")
 
+    # ---- R5b property values and their index are a pair too, but only the values live behind a lock of their own
+    # (PropertyStorage) and the index behind another: a function that updates both needs one guard across both steps
+    idx_writers = {f.id for f in P.methods_of("LpgStore") if f.impl_self == common.LPG and
+                   (common.LPG, "property_indexes") in E.closure_sets([f])[0] and f.id.split("::")[-1].startswith("update_property_index")}
+    nb = 0
+    for f in P.methods_of("LpgStore"):
+        if f.impl_self != common.LPG or f.impl_trait or f.id in idx_writers:
+            continue
+        idx_blocks = [bi for bi, t in f.calls() if callee_name(t) in idx_writers]
+        val_blocks = []
+        for a in E.own_acc(f):
+            if a.cell == (common.LPG, "node_properties") and a.kind == "PASS" and E.is_write(a):
+                val_blocks.append(a.block)
+        if not idx_blocks or not val_blocks:
+            continue
+        nb += 1
+        if short_id(f.id) in FRESH_ID:
+            ctx.ob("R5", "%s#lpg-property-index" % short_id(f.id), True, what="exception: " + FRESH_ID[short_id(f.id)], where=f.loc())
+            continue
+        covered = False
+        for (ab, mode, cell, guard, ln) in acquisitions(f):
+            reg, _ = held_region(f, ab, guard)
+            if all(b in reg for b in idx_blocks) and all(any(x in reg for x in f.reachable_blocks(vb) | {vb}) for vb in val_blocks):
+                covered = True
+        ctx.ob("R5", "%s#lpg-property-index" % short_id(f.id), covered,
+               what="%s updates the property index and the property value in two unguarded steps: two threads setting the same "
+                    "property of one node can interleave (index(old->A), index(old->B), value=A, value=B) and leave the node in "
+                    "the bucket of a value it does not have" % short_id(f.id), where=f.loc())
+    ctx.floor("R5", nb, 3, "functions updating property values and property index")
+
     # ---- R6 accounting symmetry
     rel = P.method("BufferManager", "GrantReleaser", "release")
     Wa = {a.cell for g in P.family(tr) for a in E.own_acc(g) if E.is_write(a) and a.how.startswith("atomic:") and a.cell[1] in ("allocated", "region_allocated")}
